@@ -1013,6 +1013,39 @@ func runOnce(c *Ctx, exec *ssa.Function, fnField, onceField, memoField string) {
 					if src, ok := core.AsFieldLoad(st.Val); ok && src.Owner == "argBuilder" && src.Field == flagField {
 						copied = true
 					}
+					// through an accessor of the builder every return of which hands back that flag at that position
+					if ex, ok := st.Val.(*ssa.Extract); ok {
+						if hc, ok := ex.Tuple.(*ssa.Call); ok {
+							if h := hc.Common().StaticCallee(); h != nil && p.PrivateHelper(h) {
+								all := len(core.Returns(h)) > 0
+								for _, hr := range core.Returns(h) {
+									if ex.Index >= len(hr.Results) {
+										all = false
+										continue
+									}
+									if src, ok := core.AsFieldLoad(hr.Results[ex.Index]); !ok || src.Owner != "argBuilder" || src.Field != flagField {
+										all = false
+									}
+								}
+								if all {
+									copied = true
+								}
+							}
+						}
+					}
+					if hc, ok := st.Val.(*ssa.Call); ok {
+						if h := hc.Common().StaticCallee(); h != nil && p.PrivateHelper(h) && h.Signature.Results().Len() == 1 {
+							all := len(core.Returns(h)) > 0
+							for _, hr := range core.Returns(h) {
+								if src, ok := core.AsFieldLoad(hr.Results[0]); !ok || src.Owner != "argBuilder" || src.Field != flagField {
+									all = false
+								}
+							}
+							if all {
+								copied = true
+							}
+						}
+					}
 				}
 			}
 		})
